@@ -1,5 +1,140 @@
 import DesperModel.Logic
-import DesperProofs.Lemmas.WorldLife
-open Desper
+import DesperProofs.Lemmas.WorldReg
+/-
+  C19 — Controllers, references and prototypes are faithful shorthands.
 
-theorem C19_placeholder : (1 : Nat) = 1 := rfl
+  Model: DesperModel/World.lean (`stepVia` / `viaWorld`: the module-level shorthands, the Controller
+  method aliases and the ComponentReference / ProcessorReference descriptors of
+  logic/__init__.py:27-196 follow the chain `controller.world.<op>(controller.entity, …)`;
+  `ctrlRecord` is `Controller.on_add`; `runProcs` relays `on_update` for OnUpdateProcessor) and
+  DesperModel/Logic.lean (`Prototype.__iter__`).  The shorthand equalities hold by unfolding in the
+  model: for that clause the assurance is the twin-world differential run on the real code
+  (harness/props/C19.py), the theorem records what is being compared.
+-/
+open Desper Desper.World
+
+/-- Every shorthand used through a controller has exactly the effect and the result of the
+corresponding World call for the entity the controller recorded, whatever the state of the world. -/
+theorem C19_shorthand_eq (U : Universe) (s : St) (k : Obj) (e : Ent) (h : Dict.get? s.ctrl k = some e) :
+    (∀ c, stepVia U s k (.add c) = step U s (.add e c)) ∧
+    (∀ t, stepVia U s k (.remove t) = step U s (.remove e t)) ∧
+    (∀ t, stepVia U s k (.has t) = (s, .ok, if hasComponent U s e t then "True" else "False")) ∧
+    (∀ t, stepVia U s k (.get t) = (s, .ok, showOptObj (getComponent U s e t))) ∧
+    (stepVia U s k .comps = (s, .ok, Proto.showNats (Proto.sortNats (getComponents s e)))) ∧
+    (stepVia U s k .delete = step U s (.delete e false)) ∧
+    (∀ t, stepVia U s k (.cget t) = (s, .ok, showOptObj (getComponent U s e t))) ∧
+    (∀ c, stepVia U s k (.cset c) = step U s (.add e c)) ∧
+    (∀ t, (stepVia U s k (.cdel t)).1 = (step U s (.remove e t)).1) ∧
+    (∀ t, stepVia U s k (.pget t) = (s, .ok, showOptObj (getProcessor U s t))) ∧
+    (∀ p, stepVia U s k (.pset p) = step U s (.addProc p none)) ∧
+    (∀ t, (stepVia U s k (.pdel t)).1 = (step U s (.rmProc t)).1) := by
+  simp [stepVia, h, viaWorld]
+
+/-- A controller that was never attached has no world: every shorthand raises and changes nothing. -/
+theorem C19_unattached_controller (U : Universe) (s : St) (k : Obj) (v : Via)
+    (h : Dict.get? s.ctrl k = none) : stepVia U s k v = (s, .raised "AttributeError", "-") := by
+  simp [stepVia, h]
+
+/-- A Controller attached to an entity knows that entity: after the `on_add` of a Controller
+subclass instance — delivered directly (dispatching enabled) — the recorded entity is the owner. -/
+theorem C19_on_add_records_owner (U : Universe) (hn : NoRaise U) (s : St) (c : Obj) (e : Ent)
+    (m : Mapping) (meth : String) (hm : U.mapOf c = some m) (hon : Dict.get? m onAdd = some meth)
+    (hc : (U.cls (tyOf U c)).isCtrl = true) (hen : s.enabled = true) :
+    Dict.get? (attachEvents U s c (some e)).1.ctrl c = some e := by
+  unfold attachEvents lifecycle
+  simp only [hm, hon]
+  have he : (addHandler s c m).enabled = true := hen
+  simp only [he, if_true]
+  rw [callCb_eq hn]
+  simp only [ctrlRecord, hc, Bool.and_true, decide_true, if_true]
+  exact (Dict.get?_set _ _ _ _).trans (by simp)
+
+/-- … and when the `on_add` was postponed, the relay that delivers it records the owner as well. -/
+theorem C19_relayed_on_add_records_owner (U : Universe) (hn : NoRaise U) (s : St) (c : Obj) (e : Ent)
+    (meth : String) (hm : (U.mapOf c).bind (fun m => Dict.get? m onAdd) = some meth)
+    (hc : (U.cls (tyOf U c)).isCtrl = true) (hk : s.known.contains onSingle = true)
+    (hs : s.selfReg = true) :
+    Dict.get? (deliverRelay U s onAdd c (some e)).1.ctrl c = some e := by
+  unfold deliverRelay
+  rw [if_neg (by rw [hk, hs]; decide)]
+  simp only [hm]
+  rw [callCb_eq hn]
+  simp only [ctrlRecord, hc, Bool.and_true, decide_true, if_true]
+  exact (Dict.get?_set _ _ _ _).trans (by simp)
+
+/-- OnUpdateProcessor relays each frame's `dt` exactly once to every `on_update` listener of its
+world: the listener set is duplicate free after every history, and one dispatch logs one entry per
+registered listener mapping the event, carrying exactly `dt`. -/
+theorem C19_on_update (U : Universe) (hn : NoRaise U) (hints : List (List Ent)) (ops : List Op)
+    (dt : String) :
+    let s := run U { sweepHints := hints } ops
+    s.registered.Nodup ∧
+    (deliverPlain U s "on_update" dt).1.log =
+      (s.registered.filterMap fun o =>
+        ((U.mapOf o).bind (fun m => Dict.get? m "on_update")).map fun meth => Entry.probe o meth dt).reverse
+        ++ s.log :=
+  ⟨registered_nodup_run U hints ops, deliverPlain_exact hn _ _ _⟩
+
+open Desper.Logic in
+/-- Iterating a Prototype yields one component per listed type, in order, and each is built by the
+type's entry in `init_methods` if there is one, else by the method named `init_prefix + type name`
+if the class defines or inherits one, else by calling the type without arguments. -/
+theorem C19_prototype (cs : List PClass) (names : Nat → String) (p : Nat) :
+    (build cs names p).map (·.1) = typesOf cs p ∧
+    ∀ t src, (t, src) ∈ build cs names p →
+      (∀ f, Dict.get? (imOf cs p) t = some f → src = .initMethods f) ∧
+      (Dict.get? (imOf cs p) t = none →
+        (∀ g, methodOf cs p (prefixOf cs p ++ names t) = some g → src = .method g) ∧
+        (methodOf cs p (prefixOf cs p ++ names t) = none → src = .default)) := by
+  refine ⟨?_, ?_⟩
+  · simp only [build, List.map_map]
+    induction typesOf cs p with
+    | nil => rfl
+    | cons a l ih => simp only [List.map_cons, Function.comp]; rw [ih]
+  intro t src hmem
+  simp only [build, List.mem_map] at hmem
+  obtain ⟨t', _, heq⟩ := hmem
+  simp only [Prod.mk.injEq] at heq
+  obtain ⟨rfl, rfl⟩ := heq
+  refine ⟨?_, ?_⟩
+  · intro f hf; simp [source, hf]
+  · intro hnone
+    refine ⟨?_, ?_⟩
+    · intro g hg; simp [source, hnone, hg]
+    · intro hg; simp [source, hnone, hg]
+
+open Desper.Logic in
+/-- Class attributes of a prototype are inherited: a subclass that does not define an attribute
+sees its base's value, one that defines it overrides the base. -/
+theorem C19_prototype_inheritance {α : Type} (cs : List PClass) (f : PClass → Option α) (fuel p : Nat)
+    (c : PClass) (hc : cs[p]? = some c) :
+    attr cs f (fuel + 1) p =
+      match f c with
+      | some v => some v
+      | none => match c.base with
+        | some b => attr cs f fuel b
+        | none => none := by
+  simp only [attr, hc]
+  cases f c with
+  | some v => rfl
+  | none => cases c.base <;> rfl
+
+/-! non-vacuity -/
+private def exU : Universe :=
+  { classes := [{ bases := [], isCtrl := true }, { bases := [] }], objTy := fun o => some (o % 2),
+    raises := fun _ _ _ => none, mapping := fun t => if t = 0 then some [("on_add", "on_add")] else none }
+
+example :
+    let s := run exU {} [.create none [0]]
+    Dict.get? s.ctrl 0 = some 1 ∧ (stepVia exU s 0 (.add 1)).1.ents = (step exU s (.add 1 1)).1.ents ∧
+    getComponents (stepVia exU s 0 (.add 1)).1 1 = [0, 1] := by
+  decide
+
+open Desper.Logic in
+example :
+    let cs : List PClass := [{ base := none, types := some [0, 1, 2], pfx := none, im := some [(0, "f")],
+                               methods := [("init_B", "g")] },
+                             { base := some 0, types := none, pfx := none, im := none, methods := [] }]
+    build cs (fun t => ["A", "B", "C"].getD t "") 1 =
+      [(0, .initMethods "f"), (1, .method "g"), (2, .default)] := by
+  decide
